@@ -28,17 +28,24 @@ class PYGHandler(Virtual):
         if spec is None:
             return False
 
-        self.module = importlib.util.module_from_spec(spec)
-        spec.loader.exec_module(self.module)
+        try:
+            self.module = importlib.util.module_from_spec(spec)
+            spec.loader.exec_module(self.module)
 
-        self.pygclass = self.module.PYGMain
-        self.pygobject = self.pygclass(
-            self.selector,
-            self.searchrequest,
-            self.protocol,
-            self.config,
-            self.statresult,
-        )
+            self.pygclass = self.module.PYGMain
+            self.pygobject = self.pygclass(
+                self.selector,
+                self.searchrequest,
+                self.protocol,
+                self.config,
+                self.statresult,
+            )
+        except Exception:
+            # The file is loaded whenever something asks whether this handler
+            # is the one for it - also when its directory is being listed.  A
+            # module that does not load (syntax error, no PYGMain, an
+            # exception at import) is not a PYG document.
+            return False
         return self.pygobject.isrequestforme()
 
     def prepare(self):
